@@ -1,7 +1,7 @@
 CONSTANTS
   Net = "net1"
-  Containers <- CS4
-  Caps <- CapsFull
+  Containers <- CS3
+  Caps <- CapsMC
 INIT IInit
 NEXT INext
 INVARIANT TypeOK
